@@ -51,7 +51,7 @@ def run(tier, seed):
     rep = Report(PID, tier, seed, "model_checking")
     wd = vlib.clean_workdir(PID)
     vlib.build_harness()
-    states = trans = programs = nontrivial = 0
+    states = trans = programs = nontrivial = compared = ndrift = 0
     kinds = {}
     for frag in FRAGS:
         res, lines = enumerate_fragment(frag, BUDGET[tier][frag], wd)
@@ -69,6 +69,13 @@ def run(tier, seed):
             kinds[k] = kinds.get(k, 0) + 1
         s = judge_cases(rep, cases, f"fragment {frag}")
         programs += s["judged"]
+        # drift: the code skeleton the design compiles vs the one the real compiler emits (never a verdict)
+        df = os.path.join(wd, f"drift_{frag}.ndjson")
+        ds = xv_json(["code-drift", cases, df])
+        compared += ds["compared"]
+        for d in read_ndjson(df)[:5]:
+            rep.drift.append(f"fragment {frag}: `{d['src']}` compiles to {d['compiler']} where Xeh.tla compiles {d['design']}")
+        ndrift += ds["drifts"]
         if lines:
             rep.sample(json.loads(lines[len(lines) // 2]))
     # impl -> spec: seeded programs far beyond the enumeration bound, judged by TLC evaluating the reference
@@ -85,7 +92,7 @@ def run(tier, seed):
     nontrivial = kinds.get("done", 0) + kinds.get("timeout", 0)
     rep.add(states=states, transitions=trans, traces_validated_against_impl=programs, evaluations=programs,
             distinct_nontrivial=nontrivial, exhaustive=True, kinds=kinds,
-            trace_states=tstates, seeded_programs=summ["programs"],
+            trace_states=tstates, seeded_programs=summ["programs"], code_skeletons_compared=compared, code_skeleton_drifts=ndrift,
             rule=f"plus {nrand} seeded programs of up to {budget + 6} tokens (nested definitions, repeated local names, every control structure) judged by TLC evaluating Src.tla; "
                  "every program derivable from the fragment grammar up to the phrase budget "
                  f"{BUDGET[tier]} (TLC, generation by actions); distinct by construction; non-trivial = "
